@@ -212,7 +212,8 @@ def run_straggler(sh, rng, owner, method, strategy_list, free=False):
                     t_fret = [t for (k, wh, t) in marks if k == 'fret' and wh != ''][0]
                     t_done = [t for (k, wh, t) in marks if k == 'done'][0]
                 out = st['out']
-                finished_msg = out[0] == 'exc' and out[1] == 'RuntimeError' and 'finished' in out[2]
+                # the documented rejection is a RuntimeError; its message is not part of the contract
+                finished_msg = out[0] == 'exc' and out[1] == 'RuntimeError'
                 if complex_straggler:
                     sh.count('complex_stragglers')
                     late = t_done is not None and st['t_call'] > t_done
